@@ -19,7 +19,7 @@ def plan(tier, seed):
         for bi in range(5):
             units.append(dict(hfile='isolation.py', fname='c17_isolation', args=(ai, bi)))
     return dict(units=units,
-                bounds={'input_forms': 'str vs list/tuple at 5 split points, 3-chunk generator, list of characters, single-element list, io.StringIO; FREE(0..%d) (LF-free for the file form) and every %dth skeleton of the cover' % (nmax, step),
+                bounds={'input_forms': 'str vs list/tuple at 5 split points, 3-chunk generator, list of characters, single-element list, io.StringIO; FREE(0..%d) (with and without line feeds; LF-free for the file form) and every %dth skeleton of the cover (2 split points there)' % (nmax, step),
                         'isolation': '5x5 ordered pairs of hole documents (one with unbraced arguments of fixed-signature commands): parse B, parse+edit A, parse B, edit second B tree, parse B',
                         'hash_seeds': 'sizing prefix + FREE(2), $ sizing FREE a $, FREE(3), skeleton subset explored in fresh interpreters per seed; partition equivalence with seed 0 decided by z3'},
                 outside=['file objects with universal-newline translation', 'strings longer than the bounds'],
